@@ -122,9 +122,9 @@ def run(ctx, out, budget):
                 "pairs of the sample, get_type/contains_type for full, short, ambiguous and unknown names, and an object "
                 "identity walk. Non-trivial = distinct histories that created >= 3 user types.")
     rng = ctx.rng(0)
-    n = 60 if budget == "quick" else 800
+    n = 60 if budget == "quick" else 4800
     sess = [gen_session(rng, rng.randint(3, 25)) for _ in range(n)]
-    sess += [gen_session(rng, rng.randint(40, 70)) for _ in range(4 if budget == "quick" else 40)]
+    sess += [gen_session(rng, rng.randint(40, 70)) for _ in range(4 if budget == "quick" else 240)]
     evaluate(ctx, out, sess, "h")
     out.partial = ["object identity of reachable Type objects: implementation-side observation only"]
 
